@@ -317,6 +317,40 @@ def pw_cases(ctx, n):
     return cases
 
 
+def pw_table_check(xs, ys):
+    """make_piecewise on one table: value at every knot = the table value, derivative at every knot = the slope of an
+    adjacent segment (first knot: the first segment; last knot: the last segment); list of failure texts"""
+    from srlife import materials
+    f, df = materials.make_piecewise(np.array(xs, dtype=float), np.array(ys, dtype=float))
+    sl = [(ys[j + 1] - ys[j]) / (xs[j + 1] - xs[j]) for j in range(len(xs) - 1)]
+    out = []
+    for j, x in enumerate(xs):
+        v, d = float(f(np.float64(x))), float(df(np.float64(x)))
+        if abs(v - ys[j]) > 1e-12 * (abs(ys[j]) + 1.0):
+            out.append("value at knot %d (x=%r) is %r, table value %r" % (j, x, v, ys[j]))
+        adj = [sl[k] for k in (j - 1, j) if 0 <= k < len(sl)]
+        if not any(abs(d - a) <= 1e-9 * (abs(a) + 1.0) for a in adj):
+            out.append("derivative at knot %d of %d (x=%r) is %r, adjacent segment slope(s) %r" % (j, len(xs) - 1, x, d, adj))
+    return out
+
+
+def pw_predicate(ctx, n):
+    """random tables whose LAST and first segments are not flat (every shipped table ends in a flat guard segment)"""
+    rng = ctx.rng
+    bad = []
+    for i in range(n):
+        k = rng.randint(2, 7)
+        xs = sorted(set(round(rng.uniform(-50.0, 1500.0), 2) for _ in range(k + 2)))[:k]
+        if len(xs) < 2:
+            xs = [0.0, 1.0]
+        ys = [rng.uniform(-5.0, 5.0) for _ in xs]
+        fails = pw_table_check(xs, ys)
+        ctx.case(("pw-table", i), nontrivial=True, tag="predicate:random table at its knots")
+        if fails:
+            bad.append(("pw_random_table", {"xs": xs, "ys": ys}, "make_piecewise(%r, %r): %s" % (xs, ys, fails[0])))
+    return bad
+
+
 def find_name_cases(ctx, n, tmp):
     from srlife import materials
     rng = ctx.rng
@@ -667,6 +701,9 @@ def pred_metallic(f, v, obj, node, fine):
 def eval_replay(r):
     """re-evaluate one recorded failing input on the real code; returns (text, still_fails)"""
     kind = r["kind"]
+    if kind == "pw_random_table":
+        fails = pw_table_check(r["xs"], r["ys"])
+        return ("; ".join(fails[:3]) or "table values and slopes reproduced at every knot"), bool(fails)
     if kind in ("load", "load_material"):
         from srlife import library
         try:
@@ -881,6 +918,9 @@ def run(ctx):
                 rep = dict(rep, kind=kind, dir=d, file=f, variant=v)
                 pred_bad.append((item, kind, text))
                 violations.append((1, "%s: %s" % (item, text), rep, "c20:" + kind))
+        for (kind, rep, text) in pw_predicate(ctx, 40 if quick else 400):
+            pred_bad.append(("random table", kind, text))
+            violations.append((1, text, dict(rep, kind=kind), "c20:" + kind))
         ctx.obligation("property predicates on the real code (positivity, monotonicity sweeps, envelope points, knots, slopes)",
                        not pred_bad, "%d fail; first: %s" % (len(pred_bad), pred_bad[:2]))
     finally:
